@@ -118,6 +118,28 @@ def gen_cases(ck):
     return cases
 
 
+def crash_site(san):
+    """innermost frame of the FIRST stack of the sanitizer report that is one of the anchored functions"""
+    import re
+    frames = []
+    for l in san.splitlines():
+        m = re.match(r"\s*#(\d+) 0x[0-9a-f]+ in (.*)", l)
+        if m:
+            if m.group(1) == "0" and frames:
+                break
+            frames.append(m.group(2))
+    names = ["fetch_var", "columns_info::build", "to_example", "read_record", "setup_terminals", "category_set",
+             "parse_line", "get_input", "has_header", "guess_delimiter", "sniffer", "read_xrff", "read_csv", "is_valid",
+             "tinyxml2::"]
+    for k, f in enumerate(frames):
+        if f.startswith("operator()") and k + 1 < len(frames) and "columns_info::build" in frames[k + 1]:
+            return "columns_info::build"
+        for n in names:
+            if n in f.split("(")[0] or (n + "(") in f or (n + "[") in f:
+                return n.rstrip(":")
+    return "unknown"
+
+
 STD_EXN = {"invalid_argument", "out_of_range", "insufficient_data", "data_format", "bad_variant_access", "bad_alloc"}
 
 
@@ -171,6 +193,7 @@ def run(ck):
         raise vv.BuildError("model driver failed: rc=%s %s" % (rc, merr[:500]))
     hist = {}
     zero_returns = 0
+    shrunk = {}
     for k, c in enumerate(cases):
         ck.count()
         ho, mo = hout[k], mout[k]
@@ -192,17 +215,24 @@ def run(ck):
                              dict(replay, sanitizer=crashes.get(k, "")[-2000:]))
         if got["kind"] == "CRASH":
             san = crashes.get(k, "")
-            where = "unknown"
-            for fn in ("columns_info::build", "read_xrff", "read_csv", "to_example", "fetch_var", "setup_terminals", "parse_line"):
-                if fn in san:
-                    where = fn
-                    break
-            ck.add_violation("%s:sanitizer:%s" % (c["mode"], where),
-                             "undefined behaviour while reading (sanitizer report in %s)" % where,
+            where = crash_site(san)
+            key = "%s:sanitizer:%s" % (c["mode"], where)
+            if key not in shrunk and not ck.replay_path:
+                small = cc.shrink_lines(harness, c["line"], lambda o: o is None or o.startswith("CRASH"))
+                shrunk[key] = small
+                replay = dict(replay, line=small, original_line=c["line"],
+                              input_text=cc.unhx(small.split(" ")[2]).decode("latin1")[:400])
+            ck.add_violation(key, "undefined behaviour while reading (sanitizer report in %s)" % where,
                              dict(replay, sanitizer=san[-2500:]))
             continue
         v = judge(c["mode"], got)
         if v:
+            if v[0] not in shrunk and not ck.replay_path:
+                small = cc.shrink_lines(harness, c["line"],
+                                        lambda o, m=c["mode"], k=v[0]: (judge(m, cc.parse_out(o)) or ("",))[0] == k)
+                shrunk[v[0]] = small
+                replay = dict(replay, line=small, original_line=c["line"],
+                              input_text=cc.unhx(small.split(" ")[2]).decode("latin1")[:400])
             ck.add_violation(v[0], v[1], replay)
         if cc.canon(ho) != cc.canon(mo):
             ck.add_diff({"mode": c["mode"], "line": c["line"][:400]}, mo[:600], (ho or "")[:600])
